@@ -758,6 +758,96 @@ def c03(rep, tier):
                 if is_call(l, '::operator[]') and field_chain(l['obj'])[1][-1:] == ['marks']:
                     G.check(is_call(strip_casts(m.origin(f, e['r'])), 'GenState::createLabel'), '%s: marks[...] = ...' % f['q'], 'fresh label',
                             'mark table receives %s, not a fresh label' % show(e['r']), W(m, f, e))
+    # a read marks[name] default-inserts label 0 for a name that has no entry: on every path to the read the entry exists
+    # (a membership test was true, or marks[name] was assigned)
+    def marks_obj(f_, o):
+        o = strip_casts(o)
+        if o is None:
+            return False
+        if field_chain(o)[1][-1:] == ['marks']:
+            return True
+        o2 = m.origin(f_, o) if o.get('k') == 'ref' else None
+        return o2 is not None and o2 is not o and field_chain(strip_casts(o2))[1][-1:] == ['marks']
+
+    def presence(f_, c, key):
+        # (polarity under which the condition implies "key is present") or None
+        c = strip_casts(c)
+        if c is None:
+            return None
+        if c.get('k') == 'paren':
+            return presence(f_, c['e'], key)
+        if c.get('k') == 'un' and c.get('op') == '!':
+            r = presence(f_, c['e'], key)
+            return None if r is None else not r
+        if c.get('k') == 'call' and (c.get('callee') or '').endswith('::contains') and c.get('obj') is not None and marks_obj(f_, c['obj']) and \
+                show(strip_casts(c['args'][0])) == key:
+            return True
+        if c.get('k') in ('call', 'bin') and c.get('op') in ('==', '!='):
+            a, b = (c['args'][0], c['args'][-1]) if c['k'] == 'call' else (c['l'], c['r'])
+            a, b = strip_casts(strip_copies(a)), strip_casts(strip_copies(b))
+            for x, y in ((a, b), (b, a)):
+                if x.get('k') == 'call' and (x.get('callee') or '').endswith('::find') and x.get('obj') is not None and marks_obj(f_, x['obj']) and \
+                        show(strip_casts(x['args'][0])) == key and y.get('k') == 'call' and (y.get('callee') or '').endswith(('::end', '::cend')) and \
+                        y.get('obj') is not None and marks_obj(f_, y['obj']):
+                    return c['op'] == '!='
+            # count(name) == 0 / != 0 / > 0
+            for x, y in ((a, b), (b, a)):
+                if x.get('k') == 'call' and (x.get('callee') or '').endswith('::count') and x.get('obj') is not None and marks_obj(f_, x['obj']) and \
+                        show(strip_casts(x['args'][0])) == key and y.get('k') == 'int' and y.get('v') == 0:
+                    return c['op'] == '!='
+        if c.get('k') == 'call' and (c.get('callee') or '').endswith('::count') and c.get('obj') is not None and marks_obj(f_, c['obj']) and \
+                show(strip_casts(c['args'][0])) == key:
+            return True
+        return None
+    for f in m.all_fns():
+        reads = []
+        lhs = set()
+        for e in walk_all_exprs(f['body']):
+            if e.get('k') == 'assign' and e.get('op', '=') == '=':
+                l = strip_casts(e['l'])
+                if is_call(l, '::operator[]') and marks_obj(f, l['obj']):
+                    lhs.add(id(l))
+        for e in walk_all_exprs(f['body']):
+            if is_call(e, '::operator[]') and e.get('obj') is not None and marks_obj(f, e['obj']) and id(e) not in lhs and 'map' in (strip_casts(e['obj']).get('cty') or ''):
+                reads.append(e)
+        if not reads:
+            continue
+        gg = m.cfg(f)
+        for rd in reads:
+            key = show(strip_casts(rd['args'][0]))
+            if rd.get('sid') not in gg.by_sid:
+                continue
+            tgt = gg.ev(rd)
+            est = set()
+            for n in gg.nodes:
+                if n.kind == 'branch' and isinstance(n.label, bool) and n.of is not None and n.of.exprs:
+                    pol = presence(f, gg.expanded(n.of.exprs[0]), key)
+                    if pol is not None and pol == n.label:
+                        est.add(n.id)
+                for ev2 in n.events:
+                    x = ev2.e
+                    if x.get('k') == 'assign' and not ev2.conditional:
+                        l = strip_casts(x['l'])
+                        if is_call(l, '::operator[]') and marks_obj(f, l['obj']) and show(strip_casts(l['args'][0])) == key and \
+                                (n is not tgt.node or ev2.idx < tgt.idx):
+                            est.add(n.id)
+            # is the read reachable from the entry without passing an establishing node?
+            seen, st = set(), [gg.entry]
+            hit = False
+            while st:
+                x = st.pop()
+                if x.id in seen or x.id in est:
+                    continue
+                seen.add(x.id)
+                if x is tgt.node:
+                    hit = True
+                    break
+                st.extend(x.succ)
+            G.check(not hit, '%s: read of marks[%s]' % (f['q'], key), 'the entry exists on every path to the read (membership test true or entry assigned)',
+                    'marks[%s] is read on a path on which the name may have no entry: operator[] inserts label 0 for it, the jump is bound to whatever label 0 is '
+                    '(the first label of the program) instead of a fresh label of this mark' % key, W(m, f, rd),
+                    witness={'input': 'PROGRAM p IN a DO x0 := a END; GOTO m; x1 := 1; m: x2 := 2'} if hit else None)
+
     def lit(e):
         e = strip_casts(e)
         if e is None:
@@ -810,25 +900,49 @@ def c03(rep, tier):
             'marks that are referenced but never set are not reported', W(m, pop))
     bpf = m.fn('GenState::backpatch')
     rep.analysed(bpf)
-    kinds = {}
-    for st in walk_stmts(bpf['body']):
-        if st['k'] == 'if':
-            c = st['c']
-            ops = [x for x in walk_expr(c) if x.get('k') == 'ref' and x.get('dk') == 'enumerator' and x['q'].startswith('Theo::OpCode::')]
-            if c.get('k') == 'bin' and c['op'] == '==' and len(ops) == 1:
-                opn = ops[0]['name']
-                asg = [x for x in walk_all_exprs(st['t']) if x.get('k') == 'assign' and field_chain(x['l'])[1][-1:] == ['offset']]
-                okk = False
-                for a in asg:
-                    member = field_chain(a['l'])[1][-2]
-                    r = strip_casts(a['r'])
-                    if r.get('k') == 'bin' and r['op'] == '-':
-                        tgt = m.origin(bpf, r['l'])
-                        if is_call(tgt, '::operator[]') and field_chain(tgt['obj'])[1][-1:] == ['labels']:
-                            lab = m.origin(bpf, tgt['args'][0])
-                            labm = field_chain(lab)[1]
-                            okk = labm[-1:] == ['offset'] and labm[-2] == member and member == {'JMP': 'jmp', 'JMPC': 'jmpc'}.get(opn)
-                kinds[opn] = okk
+    def patch_arms(fn_):
+        # (opcode name, statements) for every `if (<x>.op == OpCode::E)` and every case of a switch over opcodes
+        for st in walk_stmts(fn_['body']):
+            if st['k'] == 'if':
+                c = st['c']
+                ops = [x for x in walk_expr(c) if x.get('k') == 'ref' and x.get('dk') == 'enumerator' and x['q'].startswith('Theo::OpCode::')]
+                if c.get('k') == 'bin' and c['op'] == '==' and len(ops) == 1:
+                    yield ops[0]['name'], [st['t']]
+            elif st['k'] == 'switch':
+                for case in st['cases']:
+                    labs = [l.get('name') for l in case['labels'] if isinstance(l, dict) and (l.get('enumerator') or '').startswith('Theo::OpCode::')]
+                    if len(labs) == 1:
+                        yield labs[0], case['s']
+
+    def patch_kinds(fn_):
+        out = {}
+        for opn, stmts in patch_arms(fn_):
+            asg = [x for s2 in stmts for x in walk_all_exprs(s2) if x.get('k') == 'assign' and field_chain(x['l'])[1][-1:] == ['offset'] and len(field_chain(x['l'])[1]) >= 2]
+            if not asg:
+                continue
+            okk = False
+            for a in asg:
+                member = field_chain(a['l'])[1][-2]
+                r = strip_casts(a['r'])
+                if r.get('k') == 'bin' and r['op'] == '-':
+                    tgt = m.origin(fn_, r['l'])
+                    if is_call(tgt, '::operator[]') and field_chain(tgt['obj'])[1][-1:] == ['labels']:
+                        lab = m.origin(fn_, tgt['args'][0])
+                        labm = field_chain(lab)[1]
+                        okk = labm[-1:] == ['offset'] and len(labm) >= 2 and labm[-2] == member and member == {'JMP': 'jmp', 'JMPC': 'jmpc'}.get(opn)
+            out[opn] = okk
+        return out
+    kinds = patch_kinds(bpf)
+    if not kinds:
+        # the formula in a local lambda or helper taking the offset field by reference: resolve(ins.parameters.jmp.offset, loc)
+        from .inline import inlined
+        bpf2, names_ = inlined(m.facts, bpf, rounds=2, single_use=False, want=lambda h, call: h['q'] not in ('GenState::backpatchErr', 'GenState::err'))
+        if names_:
+            kinds = patch_kinds(bpf2)
+            for n_ in names_:
+                for h_ in m.facts.functions:
+                    if h_['q'] == n_ and h_.get('body') is not None:
+                        rep.analysed(h_)
     if not kinds:
         # pointer form: a JumpOffset* selected by the opcode (in backpatch itself or in a helper that returns it), read for the label
         # and written with labels[label] - position
@@ -1414,12 +1528,23 @@ def c08(rep, tier):
             tn = field_chain(strip_casts(e['obj']))[1][-1:]
             if tn == ['line_info'] and (short == 'operator[]' or short in MUT):
                 gg = gg or VMm.cfg(f)
-                site_known = False
-                for cond, label, cn in gg.guards_of(gg.ev(e)):
-                    if isinstance(label, tuple) and label[0] == 'case' and set(label[1]) <= {'POTENTIAL_BREAK', 'BREAK'} and label[1]:
-                        site_known = True
-                    if isinstance(label, bool) and label and any(k in show(cond) for k in ('POTENTIAL_BREAK', 'BREAK')) and strip_casts(cond).get('k') == 'bin' and \
-                            strip_casts(cond)['op'] in ('==', '||'):
+
+                def site_guarded(g2, ev):
+                    for cond, label, cn in g2.guards_of(ev):
+                        if isinstance(label, tuple) and label[0] == 'case' and set(label[1]) <= {'POTENTIAL_BREAK', 'BREAK'} and label[1]:
+                            return True
+                        if isinstance(label, bool) and label and any(k in show(cond) for k in ('POTENTIAL_BREAK', 'BREAK')) and strip_casts(cond).get('k') == 'bin' and \
+                                strip_casts(cond)['op'] in ('==', '||'):
+                            return True
+                    return False
+                site_known = site_guarded(gg, gg.ev(e))
+                if not site_known and f['kind'] == 'lambda':
+                    # a local helper (auto print_break = [..](..){ .. line_info[line] .. }): every call of it is at a known site
+                    calls = [(pf, c) for pf in vfacts.functions if pf.get('body') is not None and pf['tmpl'] != 'pattern'
+                             for c in walk_all_exprs(pf['body']) if c.get('k') == 'call' and c.get('callee_lambda_id') == f['q']]
+                    escapes = [x for pf in vfacts.functions if pf.get('body') is not None and pf['tmpl'] != 'pattern' for x in walk_all_exprs(pf['body'])
+                               if x.get('k') == 'call' and any(y.get('k') == 'lambda' and y.get('fn') == f['q'] for a in x.get('args', []) for y in walk_expr(a))]
+                    if calls and not escapes and all(c.get('sid') in VMm.cfg(pf).by_sid and site_guarded(VMm.cfg(pf), VMm.cfg(pf).ev(c)) for pf, c in calls):
                         site_known = True
                 Cw.check(site_known and short == 'operator[]', '%s: line_info.%s' % (f['q'].split('::')[-1], short), 'subscript only where the instruction is a breakpoint site (its entry exists)',
                          'line_info is %s for an instruction that need not be a breakpoint site: %s - from then on the tables are no inverses of each other' % (
